@@ -316,7 +316,7 @@ def confirm_in_fresh_process(pid, path):
     return p.returncode == 1, p.stdout + p.stderr
 
 
-DEFAULT_FUZZ = {"shards": 8, "runs": 200000, "wall": 420}
+DEFAULT_FUZZ = {"shards": 8, "runs": 200000, "wall": 300}
 
 
 def run_fuzz_shards(pid, tier, seed, fz, active_ids):
